@@ -360,6 +360,605 @@ def c03_task(task):
 
 
 # ---------------------------------------------------------------------------------------------
+# C04: canonical closed models, agreement of all copies and query paths
+
+
+def c04_task(task):
+    from . import invariants
+    out = _empty_out()
+    pr = _prepare(task, out)
+    if pr is None:
+        return out
+    th, sig, meta = pr
+    rng = random.Random(sha(str(task["spec"]), str(task["seed"]), "c04"))
+    hists = []
+    for i in range(task["histories"]):
+        create, facts = gen.gen_facts(rng, sig, n_elems=(2, 3), max_facts=task.get("max_facts", 10))
+        ops = gen.with_closes(rng, create, facts, closes=(0, 2))
+        ops2 = []
+        for op in ops:
+            ops2.append(op)
+            if op[0] == "close":
+                ops2.append(["sweep"])
+        # obs 4: private dump + point-query sweep at every condition evaluation
+        hists.append(("h%d" % i, 4 if i % 3 == 0 else 3, ops2))
+    status, hs, script = _run(meta, hists, out, timeout=240)
+    for h in hs:
+        stop = False
+        for ev in h["events"]:
+            if stop:
+                break
+            if ev.get("e") == "op" and "panic" in ev:
+                out["violations"].append(_vio("panic:" + ev["panic"][:80], "API call panicked in history %s: %s" % (h["tag"], ev["panic"]), th, script))
+                break
+            if ev.get("e") == "op" and ev["op"] == "close" and ev.get("capped"):
+                _inc(out, "close-capped")
+                break
+            point = None
+            if ev.get("e") == "cond" and "private" in ev and not ev.get("capped"):
+                point = ("condition evaluation %d" % ev["iter"], ev["public"], ev["private"], ev.get("sweep"))
+            elif ev.get("e") == "op" and ev["op"] == "sweep":
+                point = ("after close() returned", ev["public"], ev["private"], ev["sweep"])
+            if point is None:
+                continue
+            where, pub, priv, sw = point
+            try:
+                bad, stats = invariants.check(sig, pub, priv, sw, quiescent=True)
+            except driver.HarnessError as e:
+                _inc(out, "probe-cannot-classify")
+                out.setdefault("notes", []).append(str(e)[:300])
+                stop = True
+                continue
+            out["evaluations"] += 1
+            for k, v in stats.items():
+                _cnt(out, k, v)
+            nontriv = bool(stats.get("dumps_with_new_and_old_rows") or stats.get("diagonal_copies_with_both_kinds_of_rows") or stats.get("queries_with_nonroot_representatives"))
+            if nontriv:
+                out["distinct"].append(sha(th.get("text") or emit(th), json.dumps(pub, sort_keys=True), json.dumps(priv["index"], sort_keys=True))[:16])
+            if bad:
+                what = "inconsistent model state at %s (history %s):\n  %s\npublic: %s" % (where, h["tag"], "\n  ".join(bad), json.dumps(pub)[:1200])
+                out["violations"].append(_vio("c04:" + bad[0].split(":")[0][:60], what, th, script, {"history.txt": h["tag"], "private.json": json.dumps(priv)}))
+                stop = True
+    if hists and not out["samples"]:
+        out["samples"].append({"theory": (th.get("text") or emit(th))[:1000], "history": [" ".join(map(str, o)) for o in hists[0][2]][:30]})
+    return out
+
+
+# ---------------------------------------------------------------------------------------------
+# C05: API calls take effect immediately; equality is what was equated
+
+
+class Shadow:
+    def __init__(self, sig):
+        self.sig = sig
+        self.parent = {t: [] for t in sig.all_types}
+        self.rows = {r: [] for r in sig.rels}
+        self.dirty_eq = False  # an equate_ happened since the last close
+
+    def resync(self, pub):
+        for t in self.sig.all_types:
+            self.parent[t] = list(pub["roots"][t])
+        for r in self.sig.rels:
+            self.rows[r] = [tuple(x) for x in pub["rels"][r]]
+        self.dirty_eq = False
+
+    def find(self, t, x):
+        p = self.parent[t]
+        while x < len(p) and p[x] != x:
+            x = p[x]
+        return x
+
+    def union(self, t, a, b):
+        a, b = self.find(t, a), self.find(t, b)
+        if a != b:
+            self.parent[t][b] = a
+
+    def alloc(self, t):
+        return len(self.parent[t])
+
+    def fresh(self, t, x):
+        if x != len(self.parent[t]):
+            return False
+        self.parent[t].append(x)
+        return True
+
+    def rooted(self, cols, t):
+        return tuple(self.find(ty, x) for ty, x in zip(cols, t))
+
+
+def c05_history(rng, sig, nops):
+    labels = {t: [] for t in sig.all_types}
+    ops = [["dump"]]
+    n = 0
+
+    def lab(t):
+        return rng.choice(labels[t]) if labels[t] else None
+
+    def queries(r):
+        cols = sig.rels[r]
+        q = []
+        if r in sig.preds:
+            args = [lab(t) for t in cols]
+            if all(a is not None for a in args):
+                q.append(["pq", r] + args)
+        else:
+            args = [lab(t) for t in cols[:-1]]
+            if all(a is not None for a in args):
+                q.append(["ev", r] + args)
+        if cols:
+            q.append(["iter", r])
+        return q
+
+    for t in sig.types:
+        for i in range(rng.randint(1, 3)):
+            l = "%s%d" % (t, n)
+            n += 1
+            ops.append(["new", t, l])
+            labels[t].append(l)
+    for _ in range(nops):
+        k = rng.choice(["ins", "ins", "ins", "def", "new", "eq", "close", "q", "q", "areeq", "root", "newenum"])
+        if not sig.all_types and k in ("eq", "areeq", "root"):
+            continue
+        if not sig.rels and k in ("ins", "q"):
+            continue
+        if k == "ins":
+            r = rng.choice(sorted(sig.rels))
+            if r in sig.ctor_of:
+                continue
+            args = [lab(t) for t in sig.rels[r]]
+            if any(a is None for a in args):
+                continue
+            ops.append(["ins", r] + args)
+            ops.extend(queries(r))
+            if sig.rels[r]:
+                # the same tuple through another label of an equal element is C04's business; here: exact args
+                ops.append((["pq", r] + args) if r in sig.preds else (["ev", r] + args[:-1]))
+        elif k == "def":
+            fs = [f for f in sorted(sig.funcs) if sig.definable(f)]
+            if not fs:
+                continue
+            f = rng.choice(fs)
+            cols, res = sig.funcs[f]
+            args = [lab(t) for t in cols]
+            if any(a is None for a in args):
+                continue
+            ops.append(["ev", f] + args)
+            l = "%sd%d" % (res, n)
+            n += 1
+            ops.append(["def", f] + args + [l])
+            labels[res].append(l)
+            ops.append(["ev", f] + args)
+        elif k == "new" and sig.types:
+            t = rng.choice(sig.types)
+            l = "%s%d" % (t, n)
+            n += 1
+            ops.append(["new", t, l])
+            labels[t].append(l)
+        elif k == "newenum" and sig.enums:
+            e = rng.choice(sorted(sig.enums))
+            ct = rng.choice(sig.enums[e]["ctors"])
+            args = [lab(t) for t in ct["args"]]
+            if any(a is None for a in args):
+                continue
+            l = "%s%d" % (e, n)
+            n += 1
+            ops.append(["newenum", e, ct["name"]] + args + [l])
+            labels[e].append(l)
+            ops.append(["cases", e, l])
+        elif k == "eq":
+            t = rng.choice(sig.all_types)
+            if len(labels[t]) >= 2:
+                a, b = rng.choice(labels[t]), rng.choice(labels[t])
+                ops.append(["eq", t, a, b])
+                ops.append(["areeq", t, a, b])
+        elif k == "close":
+            ops.append(["close"])
+            ops.append(["dump"])
+        elif k == "q":
+            ops.extend(queries(rng.choice(sorted(sig.rels))))
+        elif k == "areeq":
+            t = rng.choice(sig.all_types)
+            if len(labels[t]) >= 2:
+                ops.append(["areeq", t, rng.choice(labels[t]), rng.choice(labels[t])])
+        elif k == "root":
+            t = rng.choice(sig.all_types)
+            if labels[t]:
+                ops.append(["root", t, rng.choice(labels[t])])
+    return ops
+
+
+def c05_check_history(sig, h, th, script, out):
+    sh = Shadow(sig)
+    synced = False
+    for ev in h["events"]:
+        if ev.get("e") != "op":
+            continue
+        if "panic" in ev:
+            return _vio("panic:" + ev["panic"][:80], "API call panicked in history %s: %s\nop: %s" % (h["tag"], ev["panic"], ev.get("toks")), th, script)
+        if ev.get("skipped"):
+            continue
+        op = ev["op"]
+        t = ev.get("toks", [])
+
+        def fail(msg):
+            return _vio("c05:" + msg.split(":")[0][:60], "%s (history %s, script line %d: %s)" % (msg, h["tag"], ev["i"], " ".join(t)), th, script, {"history.txt": h["tag"]})
+
+        if op == "dump":
+            sh.resync(ev["public"])
+            synced = True
+            continue
+        if not synced:
+            continue
+        if op == "close":
+            if ev.get("capped"):
+                _inc(out, "close-capped")
+                return None
+            synced = False  # wait for the dump that follows
+            continue
+        out["evaluations"] += 1
+        if op == "new":
+            if not sh.fresh(ev["ty"], ev["ret"]):
+                return fail("new_%s returned id %d: not the next fresh id (%d ids allocated)" % (ev["ty"], ev["ret"], sh.alloc(ev["ty"])))
+        elif op == "ins":
+            r = ev["rel"]
+            row = sh.rooted(sig.rels[r], ev["args"])
+            if row not in [sh.rooted(sig.rels[r], x) for x in sh.rows[r]]:
+                sh.rows[r].append(row)
+                _cnt(out, "inserts_of_new_tuples")
+            else:
+                _cnt(out, "inserts_of_present_tuples")
+        elif op in ("def", "newenum"):
+            f = ev["rel"] if op == "def" else ev["ctor"]
+            cols, res = sig.funcs[f]
+            args = sh.rooted(cols, ev["args"])
+            existing = [x[-1] for x in sh.rows[f] if sh.rooted(cols, x[:-1]) == args]
+            if not sh.dirty_eq:
+                if existing:
+                    if ev["ret"] not in existing and sh.find(res, ev["ret"]) not in [sh.find(res, v) for v in existing]:
+                        return fail("define_%s%s returned %d although the function is already defined there with value(s) %s" % (f, tuple(ev["args"]), ev["ret"], existing))
+                    _cnt(out, "defines_of_defined_terms")
+                else:
+                    if not sh.fresh(res, ev["ret"]):
+                        return fail("define_%s%s returned id %d, expected a fresh element (next id %d) since the function is undefined there" % (f, tuple(ev["args"]), ev["ret"], sh.alloc(res)))
+                    sh.rows[f].append(args + (ev["ret"],))
+                    _cnt(out, "defines_of_undefined_terms")
+            else:
+                # after an equate_ the lookup may legitimately miss a stale row: accept either
+                if ev["ret"] == sh.alloc(res):
+                    sh.fresh(res, ev["ret"])
+                    sh.rows[f].append(args + (ev["ret"],))
+                elif ev["ret"] > sh.alloc(res):
+                    return fail("define_%s returned id %d beyond the next fresh id %d" % (f, ev["ret"], sh.alloc(res)))
+        elif op == "eq":
+            sh.union(ev["ty"], ev["args"][0], ev["args"][1])
+            sh.dirty_eq = True
+        elif op == "areeq":
+            want = sh.find(ev["ty"], ev["args"][0]) == sh.find(ev["ty"], ev["args"][1])
+            if ev["ret"] != want:
+                return fail("are_equal_%s(%d, %d) = %s but the equivalence generated by the last closed state and the equate_ calls since says %s" % (
+                    ev["ty"], ev["args"][0], ev["args"][1], ev["ret"], want))
+            if want and ev["args"][0] != ev["args"][1]:
+                _cnt(out, "are_equal_true_on_distinct_ids")
+        elif op == "root":
+            if ev["ret"] != ev["ret2"]:
+                return fail("root_%s is not idempotent: root(%d) = %d, root(%d) = %d" % (ev["ty"], ev["args"][0], ev["ret"], ev["ret"], ev["ret2"]))
+            if sh.find(ev["ty"], ev["ret"]) != sh.find(ev["ty"], ev["args"][0]):
+                return fail("root_%s(%d) = %d lies outside the class of its argument" % (ev["ty"], ev["args"][0], ev["ret"]))
+        elif op == "pq" and not sh.dirty_eq:
+            r = ev["rel"]
+            want = sh.rooted(sig.rels[r], ev["args"]) in [sh.rooted(sig.rels[r], x) for x in sh.rows[r]]
+            if ev["ret"] != want:
+                return fail("%s%s = %s but the tuples inserted so far say %s" % (r, tuple(ev["args"]), ev["ret"], want))
+        elif op == "ev" and not sh.dirty_eq:
+            f = ev["rel"]
+            cols, res = sig.funcs[f]
+            args = sh.rooted(cols, ev["args"])
+            vals = [x[-1] for x in sh.rows[f] if sh.rooted(cols, x[:-1]) == args]
+            if (ev["ret"] is None) != (not vals) or (vals and ev["ret"] not in vals):
+                return fail("%s%s = %s but the inserted graph rows give %s" % (f, tuple(ev["args"]), ev["ret"], vals))
+        elif op == "iter" and not sh.dirty_eq:
+            r = ev["rel"]
+            got = [tuple(x) for x in ev["ret"]]
+            want = [sh.rooted(sig.rels[r], x) for x in sh.rows[r]]
+            if sorted(got) != sorted(set(want)):
+                return fail("iter_%s yields %s but the tuples inserted so far are %s (each expected exactly once)" % (r, sorted(got), sorted(set(want))))
+        elif op == "cases" and not sh.dirty_eq:
+            pass
+    return None
+
+
+def c05_task(task):
+    out = _empty_out()
+    pr = _prepare(task, out)
+    if pr is None:
+        return out
+    th, sig, meta = pr
+    rng = random.Random(sha(str(task["spec"]), str(task["seed"]), "c05"))
+    hists = [("h%d" % i, 1, c05_history(rng, sig, task["nops"])) for i in range(task["histories"])]
+    status, hs, script = _run(meta, hists, out)
+    for h in hs:
+        v = c05_check_history(sig, h, th, script, out)
+        if v is not None:
+            out["violations"].append(v)
+        kinds = sorted(set(e["op"] for e in h["events"] if e.get("e") == "op"))
+        if len(kinds) >= 6:
+            out["distinct"].append(sha(th.get("text") or emit(th), json.dumps([e.get("toks") for e in h["events"] if e.get("e") == "op"]))[:16])
+    if hists and not out["samples"]:
+        out["samples"].append({"theory": (th.get("text") or emit(th))[:800], "history": [" ".join(map(str, o)) for o in hists[0][2]][:40]})
+    return out
+
+
+# ---------------------------------------------------------------------------------------------
+# C06: surjective programs terminate without new elements
+
+
+def c06_bound(sig, counts):
+    total = 0
+    for r, cols in sig.rels.items():
+        p = 1
+        for t in cols:
+            p *= max(counts.get(t, 0), 1) if cols else 1
+        total += p
+    return 2 * (total + sum(counts.values())) + 4
+
+
+def c06_task(task):
+    out = _empty_out()
+    pr = _prepare(task, out)
+    if pr is None:
+        return out
+    th, sig, meta = pr
+    if not gen.is_surjective(th):
+        _cnt(out, "skipped_non_surjective_programs")
+        out["counts"]["programs"] -= 1
+        return out
+    rng = random.Random(sha(str(task["spec"]), str(task["seed"]), "c06"))
+    hists = []
+    for i in range(task["histories"]):
+        create, facts = gen.gen_facts(rng, sig, n_elems=(2, 4), density=0.8, max_facts=task.get("max_facts", 16))
+        ops = gen.with_closes(rng, create, facts, closes=(0, 2))
+        counts = {}
+        ops2 = []
+        nlab = 0
+        for op in ops:
+            if op[0] == "new":
+                counts[op[1]] = counts.get(op[1], 0) + 1
+            elif op[0] == "newenum":
+                counts[op[1]] = counts.get(op[1], 0) + 1
+            elif op[0] == "def":
+                res = sig.funcs[op[1]][1]
+                counts[res] = counts.get(res, 0) + 1
+            if op[0] == "close":
+                b = c06_bound(sig, counts)
+                ops2.append(["dump"])
+                ops2.append(["close", b])
+                ops2.append(["dump"])
+                # a fresh element right after the close must get the next dense id
+                if sig.types:
+                    t = rng.choice(sig.types)
+                    ops2.append(["new", t, "post%d" % nlab])
+                    nlab += 1
+                    counts[t] = counts.get(t, 0) + 1
+            else:
+                ops2.append(op)
+        hists.append(("h%d" % i, 1, ops2))
+    status, hs, script = _run(meta, hists, out)
+    for h in hs:
+        evs = [e for e in h["events"] if e.get("e") == "op"]
+        prev = None
+        for j, ev in enumerate(evs):
+            if "panic" in ev:
+                out["violations"].append(_vio("panic:" + ev["panic"][:80], "API call panicked in history %s: %s" % (h["tag"], ev["panic"]), th, script))
+                break
+            if ev["op"] == "dump":
+                prev = ev["public"] if (j + 1 < len(evs) and evs[j + 1]["op"] == "close") else prev
+            if ev["op"] == "close" and prev is not None and j + 1 < len(evs) and evs[j + 1]["op"] == "dump":
+                after = evs[j + 1]["public"]
+                out["evaluations"] += 1
+                bound = int(ev["toks"][1])
+                _cnt(out, "closes")
+                if ev.get("iters", 0) >= 4:
+                    _cnt(out, "closes_with_3plus_iterations")
+                    out["distinct"].append(sha(th.get("text") or emit(th), json.dumps(prev, sort_keys=True))[:16])
+                out["counts"]["max_iterations_over_bound_permille"] = max(out["counts"].get("max_iterations_over_bound_permille", 0), int(1000 * ev.get("iters", 0) / bound))
+                if ev.get("capped"):
+                    grew = any(len(after["roots"][t]) > len(prev["roots"][t]) for t in sig.all_types)
+                    what = "close() of a program without `!` in then-statements did not reach a fixed point within the progress bound of %d iterations%s (history %s)\nbefore: %s" % (
+                        bound, " and allocated new element ids" if grew else "", h["tag"], json.dumps(prev)[:1000])
+                    out["violations"].append(_vio("c06:no-fixed-point", what, th, script, {"history.txt": h["tag"]}))
+                    break
+                for t in sig.all_types:
+                    if len(after["roots"][t]) != len(prev["roots"][t]):
+                        what = "close() of a surjective program allocated new ids of type %s: %d before, %d after (history %s)" % (t, len(prev["roots"][t]), len(after["roots"][t]), h["tag"])
+                        out["violations"].append(_vio("c06:new-ids", what, th, script, {"history.txt": h["tag"]}))
+                        break
+                    if len(after["types"][t]) > len(prev["types"][t]):
+                        what = "close() of a surjective program increased the number of elements of type %s: %d -> %d (history %s)" % (t, len(prev["types"][t]), len(after["types"][t]), h["tag"])
+                        out["violations"].append(_vio("c06:more-elements", what, th, script, {"history.txt": h["tag"]}))
+                        break
+                    if len(after["types"][t]) < len(prev["types"][t]):
+                        _cnt(out, "closes_with_merges")
+                if j + 2 < len(evs) and evs[j + 2]["op"] == "new":
+                    nv = evs[j + 2]
+                    if nv["ret"] != len(after["roots"][nv["ty"]]):
+                        what = "new_%s() right after close() returned id %d, expected the next dense id %d" % (nv["ty"], nv["ret"], len(after["roots"][nv["ty"]]))
+                        out["violations"].append(_vio("c06:id-after-close", what, th, script, {"history.txt": h["tag"]}))
+                prev = None
+    if hists and not out["samples"]:
+        out["samples"].append({"theory": (th.get("text") or emit(th))[:800], "history": [" ".join(map(str, o)) for o in hists[0][2]][:40]})
+    return out
+
+
+# ---------------------------------------------------------------------------------------------
+# C07: close_until contract, soundness of stopped states, resumption
+
+
+def c07_conditions(rng, sig, init, final, labs_by_id):
+    """Monotone conditions over public queries that first hold at various points of the close."""
+    conds = []
+    for r in sorted(sig.rels):
+        ni, nf = len(init["rels"][r]), len(final["rels"][r])
+        if nf > ni:
+            for k in sorted(set([ni + 1, nf, rng.randint(ni + 1, nf)])):
+                conds.append(["count", r, k])
+        conds.append(["count", r, nf + 1])  # never true: returns false in the closed state
+        irows = set(map(tuple, init["rels"][r]))
+        for row in final["rels"][r]:
+            if tuple(row) in irows:
+                continue
+            cols = sig.rels[r]
+            ls = [labs_by_id.get((ty, x)) for ty, x in zip(cols, row)]
+            if r in sig.preds and all(l is not None for l in ls):
+                conds.append(["pred", r] + ls)
+            if r in sig.funcs and all(l is not None for l in ls[:-1]):
+                conds.append(["defined", r] + ls[:-1])
+    for ty in sig.all_types:
+        ri, rf = init["roots"][ty], final["roots"][ty]
+        for a in range(len(ri)):
+            for b in range(a + 1, len(ri)):
+                if ri[a] != ri[b] and rf[a] == rf[b]:
+                    la, lb = labs_by_id.get((ty, a)), labs_by_id.get((ty, b))
+                    if la and lb:
+                        conds.append(["areeq", ty, la, lb])
+    rng.shuffle(conds)
+    return conds
+
+
+def c07_task(task):
+    out = _empty_out()
+    pr = _prepare(task, out, hooks=True)
+    if pr is None:
+        return out
+    th, sig, meta = pr
+    rng = random.Random(sha(str(task["spec"]), str(task["seed"]), "c07"))
+    fsets = []
+    h1 = []
+    for i in range(task["factsets"]):
+        create, facts = gen.gen_facts(rng, sig, n_elems=(2, 3), max_facts=task.get("max_facts", 9))
+        fsets.append((create, facts))
+        h1.append(("a%d" % i, 1, create + facts + [["dump"], ["close"], ["dump"]]))
+    status, hs1, script1 = _run(meta, h1, out)
+    twins = {}
+    for h, (create, facts) in zip(hs1, fsets):
+        evs = [e for e in h["events"] if e.get("e") == "op"]
+        if any("panic" in e for e in evs) or any(e.get("capped") for e in evs if e["op"] == "close"):
+            _inc(out, "twin-close-capped-or-panicked")
+            continue
+        dumps = [e["public"] for e in evs if e["op"] == "dump"]
+        if len(dumps) != 2:
+            continue
+        labs = labels_of(sig, h["events"])
+        twins[h["tag"]] = (create, facts, dumps[0], dumps[1], labs)
+    h2 = []
+    plan = {}
+    for tag, (create, facts, init, final, labs) in twins.items():
+        labs_by_id = {}
+        for l, (ty, x) in sorted(labs.items()):
+            labs_by_id.setdefault((ty, x), l)
+        conds = c07_conditions(rng, sig, init, final, labs_by_id)
+        chosen = conds[: task["conds"]]
+        for j, c in enumerate(chosen):
+            mode = "any"
+            cl = list(c)
+            if len(conds) > 1 and rng.random() < 0.3:
+                c2 = rng.choice(conds)
+                mode = rng.choice(["any", "all"])
+                cl = list(c) + ["|"] + list(c2)
+            t2 = "%s_c%d" % (tag, j)
+            ops = create + facts + [["cu", ITER_CAP, mode] + cl, ["dump"], ["close"], ["dump"]]
+            h2.append((t2, 3, ops))
+            plan[t2] = (tag, "single")
+        # resumption with further assertions between two early stops
+        if facts and conds:
+            k = rng.randrange(len(facts) + 1)
+            c1, c2 = rng.choice(conds), rng.choice(conds)
+            t2 = "%s_split" % tag
+            ops = create + facts[:k] + [["cu", ITER_CAP, "any"] + list(c1)] + facts[k:] + [["cu", ITER_CAP, "any"] + list(c2), ["dump"], ["close"], ["dump"]]
+            h2.append((t2, 1, ops))
+            plan[t2] = (tag, "split")
+    if not h2:
+        return out
+    status, hs2, script2 = _run(meta, h2, out, timeout=240)
+    for h in hs2:
+        tag, kind = plan[h["tag"]]
+        create, facts, init, final, tlabs = twins[tag]
+        evs = [e for e in h["events"] if e.get("e") == "op"]
+        if any("panic" in e for e in evs):
+            p = [e for e in evs if "panic" in e][0]
+            out["violations"].append(_vio("panic:" + p["panic"][:80], "API call panicked in history %s: %s" % (h["tag"], p["panic"]), th, script2))
+            continue
+        if any(e.get("capped") for e in evs if e["op"] in ("close", "cu")):
+            _inc(out, "close-capped")
+            continue
+        if any(e.get("skipped") for e in evs if e["op"] == "cu"):
+            _inc(out, "condition-refers-to-unbound-label")
+            continue
+        cus = [e for e in evs if e["op"] == "cu"]
+        dumps = [e["public"] for e in evs if e["op"] == "dump"]
+        if len(dumps) != 2 or not cus:
+            continue
+        stopped, resumed = dumps
+        labs = labels_of(sig, h["events"])
+        F = model_from_dump(sig, final)
+        cu = cus[-1]
+        out["evaluations"] += 1
+        # pending definitions at the moment of an early return (from the hook log)
+        pending = 0
+        for e in h["events"]:
+            if e.get("e") == "hook" and e.get("point") == 0:
+                pending = sum(len(v) for k, v in e["delta"].items() if k.endswith("_def"))
+        early = cu["ret"] and cu["iters"] >= 2
+        if early:
+            _cnt(out, "early_returns_at_iteration_1plus")
+            if pending:
+                _cnt(out, "early_returns_with_pending_definitions")
+        if not cu["ret"]:
+            _cnt(out, "returns_false")
+
+        def fail(key, msg, extra=""):
+            out["violations"].append(_vio(key, "%s (history %s, condition: %s)%s" % (msg, h["tag"], " ".join(cu["toks"][3:]), extra), th, script2, {"history.txt": h["tag"]}))
+
+        # (a)/(b) contract
+        if cu["ret"] and not cu["cond_after"]:
+            fail("c07:true-but-cond-false", "close_until returned true but the condition does not hold on the returned state")
+            continue
+        S = model_from_dump(sig, stopped)
+        if not cu["ret"]:
+            if cu["cond_after"]:
+                fail("c07:false-but-cond-true", "close_until returned false although the condition holds on the returned state")
+                continue
+            try:
+                bad = ref.satisfied(S, th)
+            except ref.RefError:
+                bad = []
+                _inc(out, "reference-outside-fragment")
+            if bad:
+                fail("c07:false-but-not-closed", "close_until returned false but the returned state is not closed:\n  " + "\n  ".join(bad))
+                continue
+        # (c) soundness of the stopped state (only meaningful for single histories: same assertions as the twin)
+        if kind == "single":
+            probs = ref.embeds(S, labs, F, tlabs)
+            if probs:
+                fail("c07:stopped-state-unsound", "the state in which close_until stopped contains data that the closed model does not contain:\n  " + "\n  ".join(probs),
+                     "\nstopped: %s\nclosed: %s" % (json.dumps(stopped)[:800], json.dumps(final)[:800]))
+                continue
+        # (d) resumption
+        R = model_from_dump(sig, resumed)
+        got, want = ref.canon(R, labs), ref.canon(F, tlabs)
+        if got != want:
+            diff = ref.canon_diff(got, want)
+            fail("c07:resumption", "close() after an early return of close_until does not reach the model a direct close() produces:\n  " + "\n  ".join(diff),
+                 "\nresumed: %s\ndirect:  %s\npending definitions at the early return: %d" % (json.dumps(got)[:900], json.dumps(want)[:900], pending))
+            continue
+        if early and resumed != stopped:
+            _cnt(out, "resumed_closes_with_work_left")
+            out["distinct"].append(sha(th.get("text") or emit(th), h["tag"], json.dumps(stopped, sort_keys=True))[:16])
+    if h2 and not out["samples"]:
+        out["samples"].append({"theory": (th.get("text") or emit(th))[:800], "history": [" ".join(map(str, o)) for o in h2[0][2]][:40]})
+    return out
+
+
+# ---------------------------------------------------------------------------------------------
 # aggregation
 
 
@@ -416,7 +1015,7 @@ def c02(tier, replay=None):
     res.assumptions = ["reference chase bounded (rounds/elements); inputs beyond the bound are counted as inconclusive",
                        "theories with `model` declarations are C17's"]
     q = tier == "quick"
-    specs = specs_for(tier, 130, 1500, ["diag", "eqprem", "nonsurj", "mixed", "surj", "enum"], base=7)
+    specs = specs_for(tier, 130, 1500, PROFILES_ALL)
     tasks = [{"spec": s, "seed": seed(), "histories": 25 if q else 70, "n_elems": (2, 3), "max_facts": 10 if q else 14} for s in specs]
     aggregate(res, pmap(c02_task, tasks))
     return res.finish()
@@ -429,10 +1028,65 @@ def c03(tier, replay=None):
                 "intermediate closes (so some premise atoms were old when later ones arrived); distinct = hash(theory, variant, canonical model)")
     res.assumptions = ["no reference model involved: pure metamorphic comparison"]
     q = tier == "quick"
-    specs = specs_for(tier, 110, 1200, PROFILES_ALL, base=13)
+    specs = specs_for(tier, 110, 1200, PROFILES_ALL)
     tasks = [{"spec": s, "seed": seed(), "factsets": 6 if q else 16, "variants": 6 if q else 10, "n_elems": (2, 4), "max_facts": 12 if q else 16} for s in specs]
     aggregate(res, pmap(c03_task, tasks))
     return res.finish()
 
 
-TABLE = {"C01": c01, "C02": c02, "C03": c03}
+def c04(tier, replay=None):
+    res = Result("C04", tier)
+    res.rule = ("one evaluation = one quiescent-point observation (a condition evaluation inside close_until, or right after close() returned) "
+                "checked against I1-I6: all index copies of a relation decode to one tuple set per age, new/old disjoint, diagonal copies = rows "
+                "satisfying the pattern, ids are roots and members of the type sets, rows are in the row lists of their elements, uprooted lists "
+                "empty, iterators = copies without duplicates, point queries on all id tuples (roots and non-roots) = iterator, enum cases = "
+                "constructor graphs; non-trivial = new and old rows coexist, or a diagonal copy with both kinds of rows, or non-root substitutions exist")
+    res.assumptions = ["row lists may hold stale rows by design (one-directional check)", "functions need not be single-valued mid-close"]
+    q = tier == "quick"
+    specs = specs_for(tier, 110, 1200, PROFILES_ALL)
+    tasks = [{"spec": s, "seed": seed(), "histories": 12 if q else 40, "max_facts": 10} for s in specs]
+    aggregate(res, pmap(c04_task, tasks))
+    return res.finish()
+
+
+def c05(tier, replay=None):
+    res = Result("C05", tier)
+    res.rule = ("one evaluation = one API return value (new_/define_/are_equal_/root_/predicate/evaluation/iterator) checked against a shadow "
+                "union-find and shadow tuple lists re-seeded from the dump after each close(); distinct non-trivial = histories using >= 6 op kinds")
+    res.assumptions = ["'immediately visible' clauses only while no equate_ happened since the last close, as the property states"]
+    q = tier == "quick"
+    specs = specs_for(tier, 110, 1200, PROFILES_ALL)
+    tasks = [{"spec": s, "seed": seed(), "histories": 25 if q else 80, "nops": 30 if q else 45} for s in specs]
+    aggregate(res, pmap(c05_task, tasks))
+    return res.finish()
+
+
+def c06(tier, replay=None):
+    res = Result("C06", tier)
+    res.rule = ("one evaluation = one close() of a program without `!` in then-statements: iterations <= 2*(sum over relations of the product of "
+                "type sizes + number of elements) + 4 (every non-final iteration must add a tuple or merge), no new ids, no more elements per "
+                "type, next new_ id dense; non-trivial = close with >= 3 rule iterations; distinct = hash(theory, input model)")
+    res.assumptions = ["termination is restated as bounded progress; wall clock is never a verdict"]
+    q = tier == "quick"
+    specs = specs_for(tier, 160, 1800, ["surj", "diag", "eqprem", "surj", "mixed", "enum"])
+    tasks = [{"spec": s, "seed": seed(), "histories": 25 if q else 70} for s in specs]
+    aggregate(res, pmap(c06_task, tasks))
+    return res.finish()
+
+
+def c07(tier, replay=None):
+    res = Result("C07", tier)
+    res.rule = ("one evaluation = one close_until return: (a) true => condition holds on the returned state, (b) false => state closed (naive "
+                "re-evaluation of all rules) and condition false, (c) every element/tuple/equality of the stopped state maps into the model a "
+                "direct close() of the same assertions produces, (d) close() after the early return reaches exactly that model (canonical naming); "
+                "conditions are monotone public queries chosen to first hold at different iterations; non-trivial = early return at iteration >= 1 "
+                "with work left for the resuming close; distinct = hash(theory, history, stopped state)")
+    res.assumptions = ["the twin direct close() is the reference for (c)/(d); its own freeness is C02's", "hooked build (H2) only to count pending definitions at early returns"]
+    q = tier == "quick"
+    specs = specs_for(tier, 120, 1300, ["nonsurj", "mixed", "nonsurj", "diag", "eqprem", "enum", "surj", "nonsurj"])
+    tasks = [{"spec": s, "seed": seed(), "factsets": 5 if q else 14, "conds": 4 if q else 6} for s in specs]
+    aggregate(res, pmap(c07_task, tasks))
+    return res.finish()
+
+
+TABLE = {"C01": c01, "C02": c02, "C03": c03, "C04": c04, "C05": c05, "C06": c06, "C07": c07}
